@@ -647,6 +647,11 @@ impl OsIpcReceiverSet {
                         selection_results.push(OsIpcSelectionResult::ChannelClosed(poll_entry.id));
                         break;
                     },
+                    Err(err) if err.is_incomplete_message() => {
+                        // Nothing to report for a message that never completed;
+                        // the receiver itself is still good.
+                        continue;
+                    },
                     Err(UnixError::Errno(code)) if code == EWOULDBLOCK => {
                         // We tried to read another message from the file descriptor and
                         // it would have blocked, so we have exhausted all of the data
@@ -1031,6 +1036,18 @@ impl UnixError {
     pub fn channel_is_closed(&self) -> bool {
         matches!(self, UnixError::ChannelClosed)
     }
+
+    /// A fragmented message whose sender disappeared before sending all of it.
+    fn incomplete_message() -> UnixError {
+        UnixError::IoError(io::Error::new(
+            io::ErrorKind::UnexpectedEof,
+            "sender went away in the middle of a fragmented message",
+        ))
+    }
+
+    fn is_incomplete_message(&self) -> bool {
+        matches!(self, UnixError::IoError(e) if e.kind() == io::ErrorKind::UnexpectedEof)
+    }
 }
 
 impl fmt::Display for UnixError {
@@ -1225,7 +1242,10 @@ fn recv(
 
         match result.cmp(&0) {
             cmp::Ordering::Greater => continue,
-            cmp::Ordering::Equal => return Err(UnixError::ChannelClosed),
+            // The sender went away (crashed, or gave up) in the middle of this message.
+            // That does not close the channel: other senders may exist,
+            // and complete messages may be queued behind this one.
+            cmp::Ordering::Equal => return Err(UnixError::incomplete_message()),
             cmp::Ordering::Less => return Err(UnixError::last()),
         }
     }
